@@ -235,41 +235,30 @@ bool splinetable<Alloc>::read_fits_core(fitsfile* fits, const std::string& fileP
 				//terminate the key at once: if the next allocation fails, clear()
 				//takes the size of this block from strlen()
 				std::copy(key,key+keylen,aux[i][0]);
-				//the quotes are not stored (see below); the block is later released
-				//with strlen()+1 as its size, so request exactly that
-				size_t storedlen = valuelen;
-				if(valuelen>1 && value[0]=='\'')
-					storedlen -= (valuelen>2 && value[valuelen-2]=='\'') ? 2 : 1;
-				aux[i][1] = allocate<char>(storedlen);
+				//The block is later released with strlen()+1 as its size, so finish the
+				//string first, in the local buffer, and request exactly what is stored.
 				//remove stupid quotes mandated by FITS, but not removed by cfitsio on reading
 				//Note that we do not attempt to remove whitespace, because we cannot 
 				//distinguish whitespace included by the user and whitespace pointlessly
 				//added by FITS.
+				char* stored = value;
 				if(valuelen>1 && value[0]=='\''){
-					if(valuelen>2 && value[valuelen-2]=='\''){ //remove a trailing quote also
-						std::copy(value+1,value+valuelen-2,aux[i][1]);
-						aux[i][1][valuelen-3]='\0';
-					}
-					else{ //just remove an opening quote
-						std::copy(value+1,value+valuelen-1,aux[i][1]);
-						aux[i][1][valuelen-2]='\0';
-					}
-				}
-				else{
-					std::copy(value,value+valuelen,aux[i][1]);
-					aux[i][1][valuelen-1]='\0';
-				}
-				//FITS doubles every single quote inside a string value, and cfitsio
-				//hands back the raw card text, so undo the doubling
-				if(value[0]=='\''){
-					char* out=&aux[i][1][0];
-					for(const char* in=out; *in; in++){
+					if(valuelen>2 && value[valuelen-2]=='\'') //remove a trailing quote also
+						value[valuelen-2]='\0';
+					stored = value+1; //remove the opening quote
+					//FITS doubles every single quote inside a string value, and cfitsio
+					//hands back the raw card text, so undo the doubling
+					char* out=stored;
+					for(const char* in=stored; *in; in++){
 						if(in[0]=='\'' && in[1]=='\'')
 							in++;
 						*out++=*in;
 					}
 					*out='\0';
 				}
+				size_t storedlen = strlen(stored)+1;
+				aux[i][1] = allocate<char>(storedlen);
+				std::copy(stored,stored+storedlen,aux[i][1]);
 				i++;
 			}
 		} else {
